@@ -98,6 +98,9 @@ fn run(sc: &Scenario, faults: &[Fault]) -> Result<Outcome, Failure> {
     let x = sc.x as usize % n;
     let other = (x + 1) % n;
     let mut w = World::new(n);
+    for r in &mut w.realizers {
+        r.stale_old = true;
+    }
     if sc.sqlite {
         w.make_sqlite(x)?;
     }
